@@ -49,7 +49,10 @@ let () =
     List.iter (fun (i, a) -> if i > 0 then begin
         let ((mm, ff), jj) = a.a_P in
         let (md, ml) = mm and (jd, jl) = jj and ((r0, r1), r2) = ff in
-        Printf.printf "OUT ABI %d" i; pr_v3 md; pr_v3 ml; pr_v3 r0; pr_v3 r1; pr_v3 r2; pr_v3 jd; pr_v3 jl; print_newline () end) ab;
+        Printf.printf "OUT ABI %d" i; pr_v3 md; pr_v3 ml; pr_v3 r0; pr_v3 r1; pr_v3 r2; pr_v3 jd; pr_v3 jl; print_newline ();
+        let ((mm, ff), jj) = a.a_Pp in
+        let (md, ml) = mm and (jd, jl) = jj and ((r0, r1), r2) = ff in
+        Printf.printf "OUT PPLUS %d" i; pr_v3 md; pr_v3 ml; pr_v3 r0; pr_v3 r1; pr_v3 r2; pr_v3 jd; pr_v3 jl; print_newline () end) ab;
     out_sv "Z" (List.map (fun (i, (zr, _)) -> (i, zr.z_z)) fdr);
     out_sv "ZP" (List.map (fun (i, (zr, _)) -> (i, zr.z_zp)) fdr);
     out_cat "EPS" (List.map (fun (i, (zr, _)) -> (i, zr.z_eps)) fdr);
